@@ -11,7 +11,7 @@ STATE = [("_current_byte", "std::ptrdiff_t"), ("_bit_offset", "int")]
 SYMS = [
     Sym(HB, r"void bit_advance\(difference_type num_bits\)", "bit_advance",
         STATE + [("num_bits", "difference_type")], outputs=["_current_byte", "_bit_offset"],
-        doc="bit_range::bit_advance (note the int narrowing of _bit_offset+num_bits)"),
+        doc="bit_range::bit_advance (since 30b4cc6 the sum is kept in difference_type; only the remainder is cast to int)"),
     Sym(HB, r"auto operator\+\+\(\) -> bit_range&", "bit_inc",
         STATE + [("RangeSize", "int")], outputs=["_current_byte", "_bit_offset"],
         subst=[(r"return \*this;", "")],
